@@ -3,13 +3,40 @@ import json, os
 import core, tlc
 
 
-def mcd_cfg(name, maxsets, keys, emit=True):
+def mcd_cfg(name, maxsets, keys, emit=True, deep=False):
     path = os.path.join(tlc.WORK, "MCDescribe-%s.cfg" % name)
     os.makedirs(tlc.WORK, exist_ok=True)
     with open(path, "w") as f:
-        f.write("SPECIFICATION Spec\nCONSTANTS MaxSets = %d\n KeyUniverse <- %s\n Emit = %s\n BinaryKeyIsUnary = FALSE\nCHECK_DEADLOCK FALSE\nINVARIANT MachineIsReference%s\nPROPERTY NonInterference\n"
-                % (maxsets, keys, str(emit).upper(), " EmitOnce" if emit else ""))
+        f.write("SPECIFICATION Spec\nCONSTANTS MaxSets = %d\n KeyUniverse <- %s\n Emit = %s\n Deep = %s\n BinaryKeyIsUnary = FALSE\nCHECK_DEADLOCK FALSE\nINVARIANT MachineIsReference%s\nPROPERTY NonInterference\n"
+                % (maxsets, keys, str(emit).upper(), str(deep).upper(), " EmitOnce" if emit else ""))
     return path
+
+
+def model_and_replay(run, name, k, keys, deep=False):
+    res = tlc.run("mc/MCDescribe.tla", mcd_cfg(name, k, keys, deep=deep), workers=16, timeout=1800, xss="1g")
+    run.tlc("M:Describe/" + name, res)
+    if res.violation:
+        run.model_violation("Describe/" + name, res)
+        return
+    recs = core.tlc_printed_records(res)
+    path = os.path.join(tlc.WORK, "describe-replay-%s.ndjson" % name)
+    core.write_ndjson(path, recs)
+    out, _ = core.run_vh(["describe-replay", path], timeout=1800)
+    summ = [o for o in out if "summary" in o]
+    if not summ or summ[0]["summary"]["histories"] != len(recs):
+        raise tlc.ToolError("describe-replay did not run every history")
+    run.traces += len(recs)
+    run.evaluations += summ[0]["summary"]["renderings"]
+    run.nontrivial += sum(1 for r in recs if r["sets"])
+    if not deep:
+        pick = [r for r in recs if len(r["sets"]) == k][0]
+        run.sample({"leg": "M/R", "registrations": pick["sets"], "expected_describe": pick["expected"][:3]})
+    for o in out:
+        if "mismatch" in o:
+            rec = recs[o["mismatch"]]
+            run.violation("C18/describe/replay", "after registering %s, describe() of program #%d gives %r, specification %r" % (rec["sets"], o["program"], str(o["actual"])[:300], str(o["expected"])[:300]),
+                          {"family": "describe", "record": rec, "program": o["program"], "actual": o["actual"]})
+    run.leg("R:Describe/" + name, histories=len(recs), renderings=summ[0]["summary"]["renderings"], mismatches=summ[0]["summary"]["mismatches"])
 
 
 def check(run):
@@ -21,29 +48,10 @@ def check(run):
                      "reachable history is replayed in a fresh process of the real engine (the store is process-global) with marker descriptors and describe() compared string for string; "
                      "non-trivial = history with at least one registration" % k)
     run.rules.append("leg T: random registration histories x random parsed programs (strings excluded), each in a fresh process, validated by TLC against D")
-    res = tlc.run("mc/MCDescribe.tla", mcd_cfg("exh", k, "AllKeys"), workers=16, timeout=1800)
-    run.tlc("M:Describe/exh", res)
-    if res.violation:
-        run.model_violation("Describe/exh", res)
-    else:
-        recs = core.tlc_printed_records(res)
-        path = os.path.join(tlc.WORK, "describe-replay.ndjson")
-        core.write_ndjson(path, recs)
-        out, _ = core.run_vh(["describe-replay", path], timeout=1800)
-        summ = [o for o in out if "summary" in o]
-        if not summ or summ[0]["summary"]["histories"] != len(recs):
-            raise tlc.ToolError("describe-replay did not run every history")
-        run.traces += len(recs)
-        run.evaluations += summ[0]["summary"]["renderings"]
-        run.nontrivial += sum(1 for r in recs if r["sets"])
-        pick = [r for r in recs if len(r["sets"]) == k][0]
-        run.sample({"leg": "M/R", "registrations": pick["sets"], "expected_describe": pick["expected"][:3]})
-        for o in out:
-            if "mismatch" in o:
-                rec = recs[o["mismatch"]]
-                run.violation("C18/describe/replay", "after registering %s, describe() of program #%d gives %r, specification %r" % (rec["sets"], o["program"], o["actual"], o["expected"]),
-                              {"family": "describe", "record": rec, "program": o["program"], "actual": o["actual"]})
-        run.leg("R:Describe/exh", histories=len(recs), renderings=summ[0]["summary"]["renderings"], mismatches=summ[0]["summary"]["mismatches"])
+    model_and_replay(run, "exh", k, "AllKeys")
+    run.rules.append("deep trees: `x not in x not in ...` with 127, 129 and 200 operators (two tree levels each) and lists nested 255 and 300 deep, under every sequence of <= 2 registrations "
+                     "over the four keys they use: every node, however deep, is rendered with its own descriptor")
+    model_and_replay(run, "deep", 2, "DeepKeys", deep=True)
     # T
     tpath = os.path.join(tlc.WORK, "describe-trace.ndjson")
     core.run_vh(["describe-record", "--seed", run.seed, "--n", 2000 if thorough else 300, "--out", tpath], timeout=1800)
